@@ -1443,8 +1443,11 @@ impl Block {
             // every transaction a user sends can pay a fee (NFT and staking transactions too): a fee that
             // is counted nowhere is value that has left the ledger
             if !transaction.is_block_generated_type() {
-                cv.total_bytes_new += transaction.get_serialized_size() as u64;
-                cv.total_fees_new += transaction.total_fees;
+                // (this runs before any transaction of the block has been validated)
+                cv.total_bytes_new = cv
+                    .total_bytes_new
+                    .saturating_add(transaction.get_serialized_size() as u64);
+                cv.total_fees_new = cv.total_fees_new.saturating_add(transaction.total_fees);
             }
 
             // (a transaction of this type whose payload is not a golden ticket is refused by
